@@ -29,6 +29,7 @@ from ..world import World
 
 ID = 'C14'
 LEVEL = 'exploration'
+NEEDS_GPG = True
 NO_SHRINK = ('hashes',)
 RULE = ('each run = generated tree + Manifest layout (nested, compressed sub-Manifests, paths needing escapes), '
         'top-level originally signed or plain, 0-3 file edits, then an update+save with sign option unset/on/off, '
